@@ -1,15 +1,24 @@
 (* C04 - Every string outside the RFC 9535 grammar is rejected by compile().
 
-   Full statement (NOT proved in full; kept here so that it is never quietly weakened):
+   Full statement, PROVED below for every registry, every integer range and every text over Unicode scalar values:
 
-     C04_sound : forall cfg s q, m_compile cfg s = Ok q -> rfc_query s
-     C04_reject: forall cfg s, ~ rfc_query s -> exists c o, m_compile cfg s = Err c o
+     C04_sound : m_compile cfg s = Ok q -> rfc_query s          (whatever is accepted is derivable from the ABNF, character by character)
+     C04_reject: ~ rfc_query s -> exists c o, m_compile cfg s = Err c o   (whatever is not derivable raises a JSONPathError)
 
-   Proved at the level of TOKENS (C04_parser_sound, C04_parser_exact below): for every token list of the shape the lexer
-   produces, Parser.parse returns a query only if the typed token-level grammar QT derives the tokens for that query, and
-   (with C05_complete_tokens) exactly then; the lexer's token lists have that shape (C04_tokens_wf), so whatever compile()
-   accepts was tokenised into a list the grammar derives for the returned query (C04_compile_sound_tokens).  What remains
-   unproved is the character level: that the tokens' texts and the blank space skipped between them spell a string of the ABNF.
+   where rfc_query is derivability from the ABNF of RFC 9535 transcribed rule by rule in Spec/Rfc9535Grammar.v (generic grammar
+   semantics: Spec/Abnf.v).  The proof has three layers:
+     tokens     - C04_parser_sound / C04_parser_exact: Parser.parse returns q for a lexer-shaped token list only if the typed
+                  token-level grammar QT derives the tokens for q (and, with C05_complete_tokens, exactly then); C04_tokens_wf:
+                  the lexer's lists have that shape;
+     characters - C04_text_is_tokens (Proofs/LexSpell.v): the text is "$" followed, token by token, by a gap and the token's own
+                  text, where the gap is decided by an abstract machine over token TYPES (blanks only; nothing after ".." and
+                  before the end; blanks then "." before a shorthand name; quotes and the "(" of a call adjacent) - an invariant
+                  of the lexer's state machine over all its 8 states and three stacks;
+     grammar    - Proofs/TextSound.v: by induction on the QT derivation, running that machine along it (every construct
+                  restores its mode and stacks), the spelled text is derivable; at the leaves Proofs/AbnfDerive.v derives names,
+                  integers, string bodies (escapes, surrogate pairs) and numbers from what the lexer's regular expressions can
+                  match (soundness of the backtracking matcher w.r.t. the regex language) and what the parser checks.
+   One reading decision of the transcription is marked in Spec/Rfc9535Grammar.v (blanks inside the brackets of a singular query).
 
    Also proved below: the correctness of the executable oracle that decides "s is derivable from the
    RFC 9535 ABNF" for every input the check generates: it is sound, and complete for all sufficiently large
@@ -91,6 +100,27 @@ Proof.
   - intros H. exact (parse_complete cfg q t v0 i0 v1 i1 H).
 Qed.
 Print Assumptions C04_parser_exact.
+
+(* ---- the character level ---- *)
+From JP Require Import Proofs.StringProofs Proofs.LexSpell Proofs.TextSound Proofs.CompileNoCrash.
+Theorem C04_text_is_tokens : forall text toks, m_tokenize text = Ok toks ->
+  exists r ts y a, toks = r :: ts /\ ty r = T_ROOT /\ text = 36%N :: y /\ Run a0 T_ROOT ts y a.
+Proof. exact tokenize_spelled. Qed.
+Print Assumptions C04_text_is_tokens.
+
+Theorem C04_sound : forall cfg text q, forallb is_scalar text = true -> m_compile cfg text = Ok q -> rfc_query text.
+Proof. exact compile_text_sound. Qed.
+Print Assumptions C04_sound.
+
+Theorem C04_reject : forall cfg text, forallb is_scalar text = true -> ~ rfc_query text -> exists c off, m_compile cfg text = Err c off.
+Proof.
+  intros cfg text Hs Hn. destruct (compile_total cfg text Hs) as [[q Hq] | H]; [|exact H]. exfalso. apply Hn. exact (compile_text_sound cfg text q Hs Hq).
+Qed.
+Print Assumptions C04_reject.
+
+(* non-vacuity of C04_reject: a string outside the grammar ("$[01]", leading zero) *)
+Example C04_reject_nonvacuous : in_rfc_fuel 400 [36; 91; 48; 49; 93]%N = false.
+Proof. vm_compute. reflexivity. Qed.
 
 (* the lexer's regular expressions and ESCAPES in the model are the ones REGENERATED from lex.py on this run *)
 From JP Require Import Proofs.TieLex Proofs.TieParse Gen.LexConst Model.Lex.
